@@ -37,6 +37,9 @@ structure Req where
   aSize : Nat := 0
   panic : Option (Nat × Nat) := none
   cold : Bool := false
+  gpanic : Option (Nat × Nat) := none
+  skewGen : Nat := 0
+  skewCall : Nat := 0
   deriving Repr, Inhabited
 
 def optNat (s : String) : Option (Option Nat) := if s = "-" then some none else s.toNat?.map some
@@ -69,6 +72,15 @@ def parseReq (args : List String) : Option Req := do
         | some [a, b, c, d] => r := { r with aGen := a, aCall := b, aDrop := c, aSize := d }
         | _ => none
       | "cold" => r := { r with cold := v = "1" }
+      | "gpanic" =>
+        if v = "-" then pure () else
+        match (v.splitOn ":").mapM String.toNat? with
+        | some [a, b] => r := { r with gpanic := some (a, b) }
+        | _ => none
+      | "skew" =>
+        match (v.splitOn ",").mapM String.toNat? with
+        | some [a, b] => r := { r with skewGen := a, skewCall := b }
+        | _ => none
       | "panic" =>
         if v = "-" then pure () else
         match (v.splitOn ":").mapM String.toNat? with
@@ -140,7 +152,10 @@ def interp (r : Req) (t : Nat) (x : SmpSt) : SampleLoop.Ev → SmpSt
     if r.hasInputs then
       let id := x.sim.nextId[t]!
       let sim := { x.sim with nextId := x.sim.nextId.modify t (· + 1) }
-      { x with sim := (sim.ev t s!"g{id}").adv t r.cGen, ids := x.ids.push (if r.shape.iZst then 0 else id) }
+      if r.gpanic = some (t, id) then
+        { x with sim := { (sim.ev t s!"g{id}") with panicked := true }, dead := true }
+      else
+      { x with sim := (sim.ev t s!"g{id}").adv t (r.cGen + t * r.skewGen), ids := x.ids.push (if r.shape.iZst then 0 else id) }
     else { x with ids := x.ids.push 0 }
   | .count _ i =>
     let shown := x.ids[i]!
@@ -161,7 +176,7 @@ def interp (r : Req) (t : Nat) (x : SmpSt) : SampleLoop.Ev → SmpSt
                   deallocC := al.deallocC + r.aCall, deallocS := al.deallocS + r.aCall * 2 * sz,
                   maxC := 1, maxS := max al.maxS (2 * sz) }
       else al
-    { x with sim := sim.adv t (r.cCall + r.cSlope * j), al := al }
+    { x with sim := sim.adv t (r.cCall + r.cSlope * j + (r.threads - 1 - min t (r.threads - 1)) * r.skewCall), al := al }
   | .tsEnd =>
     let sim := x.sim.adv t r.cRead
     { x with sim := sim.ev t s!"e{sim.clocks[t]!}", stop := sim.clocks[t]! }
@@ -326,7 +341,8 @@ def sampleOk (r : Req) (complete : Bool) (smp : List Ev) : List String :=
   (if post.any (fun e => e.k ≠ 'o' ∧ e.k ≠ 'i') then ["[C01][C02] something other than drops happened after the end timestamp"] else []) ++
   (if r.hasInputs ∧ complete ∧ gens.length ≠ calls.length then ["[C01] generated inputs and benchmarked calls differ in number"] else []) ++
   (if r.hasInputs ∧ !sh.iZst ∧ complete ∧ calls.map (·.v) ≠ idsIn then ["[C01] an input was not passed to exactly one call, in generation order"] else []) ++
-  (if r.ic ∧ r.hasInputs ∧ (pre.filter (·.k = 'c')).length ≠ gens.length then ["[C01] an input was not shown exactly once to the input counter"] else []) ++
+  (if r.ic ∧ r.hasInputs ∧ complete ∧ (pre.filter (·.k = 'c')).length ≠ gens.length then ["[C01] an input was not shown exactly once to the input counter"] else []) ++
+  (if r.ic ∧ r.hasInputs ∧ !complete ∧ (pre.filter (·.k = 'c')).length > gens.length then ["[C01] an input was shown more than once to the input counter"] else []) ++
   (if complete then
      let wantO := if sh.oDrop then calls.length else 0
      let wantI := if sh.iDrop ∧ r.byRef then calls.length else 0
@@ -346,6 +362,39 @@ def stripCal : Nat → List Ev → List Ev
   | f + 1, a :: b :: rest => if a.k = 's' ∧ b.k = 'e' then stripCal f rest else a :: b :: rest
   | _, l => l
 
+/-- (start, end, calls, Σ input-counter values) of one sample of the implementation's trace -/
+def sampleSummary (smp : List Ev) : Nat × Nat × Nat × Nat :=
+  let st := (smp.find? (·.k = 's')).map (·.v) |>.getD 0
+  let en := (smp.find? (·.k = 'e')).map (·.v) |>.getD st
+  (st, en, count (·.k = 'k') smp, ((smp.filter (·.k = 'c')).map fun e => 3 + e.v % 5).foldl (· + ·) 0)
+
+/-- C03/C04/C19 on the implementation's own clock history: the round loop model, driven by the
+    *observed* readings, must execute exactly the observed rounds with the observed sample sizes -/
+def replaySpec (r : Req) (perThread : List (List (Nat × Nat × Nat × Nat))) (initial : Nat) (complete : Bool) : List String := Id.run do
+  let o := r.opts
+  let T := r.threads
+  let K := (perThread.take T).foldl (fun m l => min m l.length) 100000
+  let mut st := initSt r.isTest o
+  let prec := match st.mode with | .tune _ => r.prec | _ => 0
+  let mut errs : List String := []
+  for k in [0:K] do
+    if st.stopped || !continues o st then
+      errs := errs ++ ["[C04] a round was executed although the documented stop rule already held at the previous round boundary"]
+      break
+    let row := (perThread.take T).map fun l => l.getD k (0, 0, 0, 0)
+    let size := st.mode.size
+    if !(row.all fun (_, _, c, _) => c = size) ∧ (complete ∨ k + 1 < K) then
+      errs := errs ++ [(match st.mode with
+        | .tune _ => "[C19] the sample size of a round is not the doubling sequence up to the first round beyond 100 x precision"
+        | _ => "[C03] a sample does not consist of exactly sample_size calls")]
+      break
+    let durs := row.map fun (a, b, _, _) => b - a
+    let lastEnd := row.foldl (fun m (_, b, _, _) => max m b) 0
+    st := stepRound o T prec st ⟨durs, lastEnd - initial⟩
+  if errs.isEmpty ∧ complete ∧ !(st.stopped || !continues o st) ∧ K < 20000 then
+    errs := errs ++ ["[C04] sampling stopped although fewer than sample_count samples were recorded or min_time had not elapsed and max_time was not reached"]
+  return errs
+
 def handle (args : List String) (obs : String) : Option Reply := do
   let r ← parseReq args
   let out := loop r
@@ -360,7 +409,7 @@ def handle (args : List String) (obs : String) : Option Reply := do
   let implStats := segs.getD 0 ""
   let implTraces := ((segs.getD 1 "").splitOn " ").filter (· ≠ "")
   let traces : List (List Ev) := implTraces.map fun s => parseTrace ((s.splitOn ":").getD 1 "")
-  let panicky := r.panic.isSome ∧ implStats = "panic"
+  let panicky := (r.panic.isSome ∨ r.gpanic.isSome) ∧ implStats = "panic"
   let o := r.opts
   let noRun : Bool := o.maxPicos = 0 || !hasSamples o
   let callsPer := traces.map fun t => count (·.k = 'k') t
@@ -386,6 +435,48 @@ def handle (args : List String) (obs : String) : Option Reply := do
          ["[C04] timestamp reads between the start of the time budget and the first sample (one-time calibration charged to the first benchmark)"]
        else []
      | _ => []) ++
+    -- C03/C04/C19: the documented loop rule on the observed clock history
+    (if noRun ∨ implStats = "hang" then [] else
+      let per := (List.range traces.length).map fun t =>
+        let evs := traces.getD t []
+        let evs := if r.cold ∧ t = 0 then stripCal 400 evs else evs
+        let evs := if t = 0 ∧ !o.skipExt then evs.drop 1 else evs
+        (samplesOf evs).map sampleSummary
+      let initial := if o.skipExt then 0 else
+        (((if r.cold then stripCal 400 (traces.headD []) else traces.headD []).head?).map (·.v)).getD 0
+      replaySpec r per initial (!panicky)) ++
+    -- C05: per-input counter figures belong to the samples that supplied the times; mean over all samples
+    (if r.ic ∧ r.hasInputs ∧ !r.isTest ∧ !panicky ∧ !noRun then
+      let allS := (List.range T).flatMap fun t =>
+        let evs := traces.getD t []
+        let evs := if r.cold ∧ t = 0 then stripCal 400 evs else evs
+        let evs := if t = 0 ∧ !o.skipExt then evs.drop 1 else evs
+        (samplesOf evs).map sampleSummary
+      -- the recorded samples are the last `n` ones (earlier tuning rounds are discarded)
+      let nRec := ((((implStats.splitOn " ").find? (·.startsWith "n")).map fun w => ((w.drop 1).toString.splitOn ",").headD "0").bind String.toNat?).getD 0
+      -- samples are stored round by round: re-interleave per-thread lists
+      let perT := (List.range T).map fun t =>
+        let evs := traces.getD t []
+        let evs := if r.cold ∧ t = 0 then stripCal 400 evs else evs
+        let evs := if t = 0 ∧ !o.skipExt then evs.drop 1 else evs
+        (samplesOf evs).map sampleSummary
+      let rounds := (perT.map (·.length)).foldl min 100000
+      let ordered := (List.range rounds).flatMap fun k => perT.map fun l => l.getD k (0, 0, 0, 0)
+      let recs := ordered.drop (ordered.length - nRec)
+      let s := out.st.sampleSize
+      let cOf (x : Nat × Nat × Nat × Nat) : Nat := if s = 0 then 0 else x.2.2.2 / s
+      let dOf (x : Nat × Nat × Nat × Nat) : Nat := x.2.1 - x.1
+      let c3 := (((implStats.splitOn " ").find? (·.startsWith "c3:")).map fun w => ((w.drop 3).toString.splitOn ",").filterMap String.toNat?).getD []
+      if recs.isEmpty ∨ c3.length ≠ 4 ∨ allS.isEmpty then [] else
+      let mn := (recs.map dOf).foldl min (dOf (recs.headD (0,0,0,0)))
+      let mx := (recs.map dOf).foldl max 0
+      let okF := (recs.filter fun x => dOf x = mn).any fun x => cOf x = c3.getD 0 0
+      let okS := (recs.filter fun x => dOf x = mx).any fun x => cOf x = c3.getD 1 0
+      let mean := (recs.map cOf).foldl (· + ·) 0 / recs.length
+      (if !okF then ["[C05] the counter figure under fastest is not that of a sample with the smallest duration"] else []) ++
+      (if !okS then ["[C05] the counter figure under slowest is not that of a sample with the largest duration"] else []) ++
+      (if mean ≠ c3.getD 3 0 then ["[C05] the counter mean is not the mean over all recorded samples"] else [])
+     else []) ++
     -- C01: `_local` forms run on the calling thread only
     (if r.isLocal ∧ (traces.drop 1).any (!·.isEmpty) then ["[C01] a _local form ran on a pool thread"] else []) ++
     -- C03: explicit size, no time limit: calls = s * T * ceil(n/T); test mode: one call per thread; zero cases: none
@@ -405,7 +496,7 @@ def handle (args : List String) (obs : String) : Option Reply := do
   let tag :=
     if noRun then "trivial-norun" else
     s!"{r.ep}-{r.inS}{r.outS}-T{T}-" ++ (if r.isTest then "test" else if r.ss.isNone then "tune" else "collect") ++
-      (if panicky then "-panic" else "") ++ (if r.maxt.isSome then "-maxt" else "") ++ (if r.mint.isSome then "-mint" else "") ++
+      (if panicky then "-panic" else "") ++ (if r.skewGen + r.skewCall > 0 then "-skew" else "") ++ (if r.maxt.isSome then "-maxt" else "") ++ (if r.mint.isSome then "-mint" else "") ++
       (if o.skipExt then "-sk" else "") ++ s!"-r{min out.rounds 9}"
   some { model := model, verdict := verdict, tag := tag }
 
